@@ -68,9 +68,24 @@ def random_spec(rng):
 
 
 BOUNDARY_SIZES = [4095, 4096, 4097, 16384, 16385, 32768, 32769, 65535, 65536, 65537, 131073]
+LARGE_SIZES = [2 ** 18, 2 ** 19 - 1, 2 ** 19, 2 ** 19 + 1, 2 ** 20 - 1, 2 ** 20, 2 ** 20 + 1,
+               3 * 2 ** 19, 2 ** 21]
 
 
 def random_partition(rng):
+    if rng.random() < 0.07:
+        # single requests of 2^18 .. 2^21 samples (block-wise processing inside one call): either
+        # the total is one of these sizes, cut at random places, or the requests themselves are
+        if rng.random() < 0.5:
+            total = int(rng.choice(LARGE_SIZES))
+            cuts = sorted(int(c) for c in rng.integers(0, total + 1, size=int(rng.integers(1, 3))))
+            edges = [0] + cuts + [total]
+            blocks = [b - a for a, b in zip(edges[:-1], edges[1:])]
+        else:
+            blocks = [int(rng.choice(LARGE_SIZES)) for _ in range(int(rng.integers(1, 3)))]
+            if rng.random() < 0.5:
+                blocks.insert(int(rng.integers(0, len(blocks) + 1)), int(rng.integers(0, 3)))
+        return blocks, "large-sizes"
     if rng.random() < 0.12:
         # requests around and beyond the power-of-two sizes at which implementations switch to
         # block-wise processing or refill buffers
@@ -121,6 +136,8 @@ def partition_case(rec, seedt):
     rec.count("partition_histories")
     if any(n > 65536 for n in blocks):
         rec.count("histories_with_request_over_65536")
+    if total >= 2 ** 20:
+        rec.count("histories_with_total_of_2^20_or_more")
     if 0 in blocks:
         rec.count("histories_with_zero_request")
     if 1 in blocks and any(n >= 2 for n in blocks):
